@@ -52,7 +52,7 @@ IsolationOk(ev, h) ==
 
 (* all failing clauses of a probe (the home clause must not hide the others) *)
 Clauses(ev, h) ==
-  (IF PropHome(ev.home, h) THEN {} ELSE {"web_home"})
+  (IF PropHomeVisible(ev.home, h) THEN {} ELSE {"web_home"})
   \cup (IF PropHome(ev.all, h) THEN {} ELSE {"web_all"})
   \cup ({TrackClause(ev.tracks[j], ev, h) : j \in 1..Len(ev.tracks)} \ {"ok"})
   \cup (IF IsolationOk(ev, h) THEN {} ELSE {"track_isolation"})
